@@ -56,6 +56,12 @@ Proof.
   - apply Z.eqb_neq in E. apply find_id_set_other; auto.
 Qed.
 
+Lemma set_id_same id t bl : find_id id bl = Some t -> set_id id t bl = bl.
+Proof.
+  induction bl as [|[i t1] r IH]; cbn; [reflexivity|].
+  destruct (i =? id) eqn:E; [intros H; injection H as ->; reflexivity|]. intros H. rewrite IH by exact H. reflexivity.
+Qed.
+
 (* table *)
 Lemma entry_lt st s e : entry st s = Some e -> (s < length (d_table st))%nat.
 Proof.
@@ -470,7 +476,7 @@ Lemma alloc_in_spec t size align kind strat mo tag :
   TInv t -> g_g (t_gran t) = 1 -> Inv2 t -> pow2 align ->
   match alloc_in t size align kind strat mo tag with
   | AIOk t' off =>
-    TInv t' /\ g_g (t_gran t') = 1 /\ Inv2 t' /\ off < mo /\ 1 <= size /\
+    TInv t' /\ g_g (t_gran t') = 1 /\ Inv2 t' /\ off < mo /\ 1 <= size /\ t_size t' = t_size t /\
     exists l1 l2, live t = l1 ++ l2 /\ live t' = l1 ++ new_blk off size tag kind size align :: l2
   | AINo t' => t' = t
   | AIPanic => False
@@ -480,16 +486,16 @@ Proof.
   pose proof (create_request_ok t size align false kind strat mo HT HI2 Hpa) as Hok.
   destruct (create_request t size align false kind strat mo) as [t1 r| | |] eqn:Hcr; auto.
   destruct (request_alloc_spec _ _ _ _ _ _ tag _ _ HT HI2 Hpa Hcr)
-    as (HT1 & _ & Hg1 & Hl1 & _ & Hmo & _ & Hs1 & Hrs & t2 & h & Hal & HT2 & HI2' & Hg2 & _ & -> & l1 & l2 & Hl & Hl2).
+    as (HT1 & _ & Hg1 & Hl1 & _ & Hmo & _ & Hs1 & Hrs & t2 & h & Hal & HT2 & HI2' & Hg2 & Hsz2 & -> & l1 & l2 & Hl & Hl2).
   rewrite Hal. rewrite (Hrs Hg) in Hl2.
-  split; [exact HT2|]. split; [congruence|]. split; [exact HI2'|]. split; [exact Hmo|]. split; [exact Hs1|]. exists l1, l2. auto.
+  split; [exact HT2|]. split; [congruence|]. split; [exact HI2'|]. split; [exact Hmo|]. split; [exact Hs1|]. split; [exact Hsz2|]. exists l1, l2. auto.
 Qed.
 
 Lemma alloc_lower_spec t size align kind offset tag :
   TInv t -> g_g (t_gran t) = 1 -> Inv2 t -> pow2 align -> 1 <= size ->
   match alloc_lower t size align kind offset tag with
   | AIOk t' off =>
-    TInv t' /\ g_g (t_gran t') = 1 /\ Inv2 t' /\ off < offset /\ 1 <= size /\
+    TInv t' /\ g_g (t_gran t') = 1 /\ Inv2 t' /\ off < offset /\ 1 <= size /\ t_size t' = t_size t /\
     exists l1 l2, live t = l1 ++ l2 /\ live t' = l1 ++ new_blk off size tag kind size align :: l2
   | AINo t' => t' = t
   | AIPanic => False
@@ -500,10 +506,10 @@ Proof.
   destruct (create_request t size align false kind 4 offset) as [t1 r| | |] eqn:Hcr; auto.
   2:{ apply create_request_error in Hcr. destruct Hcr; [lia|discriminate]. }
   destruct (request_alloc_spec _ _ _ _ _ _ tag _ _ HT HI2 Hpa Hcr)
-    as (HT1 & _ & Hg1 & Hl1 & _ & Hmo & Hlo & Hs1 & Hrs & t2 & h & Hal & HT2 & HI2' & Hg2 & _ & -> & l1 & l2 & Hl & Hl2).
+    as (HT1 & _ & Hg1 & Hl1 & _ & Hmo & Hlo & Hs1 & Hrs & t2 & h & Hal & HT2 & HI2' & Hg2 & Hsz2 & -> & l1 & l2 & Hl & Hl2).
   destruct (rq_block r <? offset) eqn:E; [|apply Z.ltb_ge in E; lia].
   rewrite Hal. rewrite (Hrs Hg) in Hl2.
-  split; [exact HT2|]. split; [congruence|]. split; [exact HI2'|]. split; [exact Hmo|]. split; [exact Hs1|]. exists l1, l2. auto.
+  split; [exact HT2|]. split; [congruence|]. split; [exact HI2'|]. split; [exact Hmo|]. split; [exact Hs1|]. split; [exact Hsz2|]. exists l1, l2. auto.
 Qed.
 
 (* the bound test of allocIfLowerOffset never rejects a granted request (the request's region
@@ -522,35 +528,61 @@ Proof.
   destruct (rq_block r <? offset) eqn:E; [reflexivity|]. apply Z.ltb_ge in E. lia.
 Qed.
 
-(* st' keeps the blocks' identities and order and every allocation object of st *)
+(* st' keeps the blocks' identities, order and sizes and every allocation object of st *)
+(* every block that is in both lists has the same size in both *)
+Definition same_sizes (bl bl' : list (Z * tlsf)) : Prop :=
+  forall id t t', find_id id bl = Some t -> find_id id bl' = Some t' -> t_size t' = t_size t.
+
 Definition ext (st st' : dstate) : Prop :=
   map fst (d_blocks st') = map fst (d_blocks st) /\ d_sentinel st' = d_sentinel st /\
   (length (d_table st) <= length (d_table st'))%nat /\
-  forall s, (s < length (d_table st))%nat -> entry st' s = entry st s.
+  (forall s, (s < length (d_table st))%nat -> entry st' s = entry st s) /\
+  same_sizes (d_blocks st) (d_blocks st').
+
+Lemma same_sizes_refl bl : same_sizes bl bl.
+Proof. intros id t t' H1 H2. congruence. Qed.
+
+Lemma same_sizes_set bl id t0 t2 :
+  find_id id bl = Some t0 -> t_size t2 = t_size t0 -> same_sizes bl (set_id id t2 bl).
+Proof.
+  intros Hf Hs id' t t' H1 H2. rewrite (find_set_id _ _ _ _ _ Hf) in H2. destruct (id' =? id) eqn:E.
+  - apply Z.eqb_eq in E. subst id'. injection H2 as <-. congruence.
+  - congruence.
+Qed.
 
 Lemma ext_refl st : ext st st.
-Proof. unfold ext. auto. Qed.
+Proof. unfold ext. split; [reflexivity|]. split; [reflexivity|]. split; [lia|]. split; [auto|apply same_sizes_refl]. Qed.
 
 Lemma ext_trans a b c : ext a b -> ext b c -> ext a c.
 Proof.
-  intros (A1 & A2 & A3 & A4) (B1 & B2 & B3 & B4). unfold ext.
-  split; [congruence|]. split; [congruence|]. split; [lia|].
-  intros s Hs. rewrite B4 by lia. apply A4; auto.
+  intros (A1 & A2 & A3 & A4 & A5) (B1 & B2 & B3 & B4 & B5). unfold ext.
+  split; [congruence|]. split; [congruence|]. split; [lia|]. split.
+  - intros s Hs. rewrite B4 by lia. apply A4; auto.
+  - intros id t t'' H1 H3.
+    assert (Hin : In id (map fst (d_blocks b))) by (rewrite A1; eapply find_id_some_in; eauto).
+    destruct (in_ids_find _ _ Hin) as (t' & H2). rewrite (B5 _ _ _ H2 H3). eapply A5; eauto.
 Qed.
 
 Lemma ext_entry st st' s e : ext st st' -> entry st s = Some e -> entry st' s = Some e.
-Proof. intros (_ & _ & _ & H) He. rewrite H; [exact He|]. eapply entry_lt; eauto. Qed.
+Proof. intros (_ & _ & _ & H & _) He. rewrite H; [exact He|]. eapply entry_lt; eauto. Qed.
 
-Lemma ext_set_block st id t : ext st (set_block st id t).
+Lemma ext_sizes st st' id t t' :
+  ext st st' -> find_id id (d_blocks st) = Some t -> find_id id (d_blocks st') = Some t' -> t_size t' = t_size t.
+Proof. intros (_ & _ & _ & _ & H). apply H. Qed.
+
+Lemma ext_set_block st id t0 t :
+  find_id id (d_blocks st) = Some t0 -> t_size t = t_size t0 -> ext st (set_block st id t).
 Proof.
-  unfold ext, set_block; cbn. split; [apply set_id_ids|]. split; [reflexivity|]. split; [lia|]. reflexivity.
+  intros Hf Hs. unfold ext, set_block; cbn. split; [apply set_id_ids|]. split; [reflexivity|]. split; [lia|].
+  split; [reflexivity|eapply same_sizes_set; eauto].
 Qed.
 
 Lemma ext_add st bl' e :
-  map fst bl' = map fst (d_blocks st) -> ext st (mkD bl' (d_table st ++ [Some e]) (d_sentinel st)).
+  map fst bl' = map fst (d_blocks st) -> same_sizes (d_blocks st) bl' ->
+  ext st (mkD bl' (d_table st ++ [Some e]) (d_sentinel st)).
 Proof.
-  intros H. unfold ext; cbn. split; [exact H|]. split; [reflexivity|]. split; [rewrite app_length; lia|].
-  intros s Hs. rewrite entry_app_old by exact Hs. destruct st; reflexivity.
+  intros H Hsz. unfold ext; cbn. split; [exact H|]. split; [reflexivity|]. split; [rewrite app_length; lia|].
+  split; [|exact Hsz]. intros s Hs. rewrite entry_app_old by exact Hs. destruct st; reflexivity.
 Qed.
 
 (* a new region with its new allocation object *)
@@ -593,10 +625,10 @@ Proof.
   destruct (create_request t size align false kind 0 max_int) as [t1 r1| | |] eqn:Hcr;
     try (intros H; injection H as <- <-; split; [auto|apply ext_refl]).
   destruct (request_alloc_spec _ _ _ _ _ _ (Some (Z.of_nat (length (d_table st)))) _ _ HT HI2 Hp Hcr)
-    as (HT1 & _ & Hg1 & Hl1 & _ & _ & _ & Hs1 & Hrs & t2 & h & Hal & HT2 & HI2' & Hg2 & _ & _ & Hle).
+    as (HT1 & _ & Hg1 & Hl1 & _ & _ & _ & Hs1 & Hrs & t2 & h & Hal & HT2 & HI2' & Hg2 & Hsz2 & _ & Hle).
   rewrite Hal. intros H; injection H as <- <-. split.
   - eapply wf_alloc_entry; eauto; cbn; try congruence; try apply tag_ok_user. rewrite (Hrs Hg). exact Hs1.
-  - apply ext_add. apply set_id_ids.
+  - apply ext_add; [apply set_id_ids|eapply same_sizes_set; eauto].
 Qed.
 
 (* ================================================================== 5. collecting the moves of a pass *)
@@ -717,32 +749,29 @@ Lemma alloc_other_spec st cands size align kind :
     In (idx, id) cands /\ 1 <= size /\
     exists st1 t t2, WF st1 /\ ext st st1 /\ d_table st1 = d_table st /\
       find_id id (d_blocks st1) = Some t /\ st' = set_block st1 id t2 /\ TInv t2 /\ g_g (t_gran t2) = 1 /\ Inv2 t2 /\
-      exists l1 l2, live t = l1 ++ l2 /\ live t2 = l1 ++ new_blk off size (tmp_tag st) kind size align :: l2
-  | AONone st' => WF st' /\ ext st st' /\ d_table st' = d_table st
-  | AOPanic st' => WF st' /\ ext st st' /\ d_table st' = d_table st
+      t_size t2 = t_size t /\
+      (exists l1 l2, live t = l1 ++ l2 /\ live t2 = l1 ++ new_blk off size (tmp_tag st) kind size align :: l2) /\
+      d_blocks st1 = d_blocks st
+  | AONone st' => WF st' /\ ext st st' /\ d_table st' = d_table st /\ d_blocks st' = d_blocks st
+  | AOPanic st' => WF st' /\ ext st st' /\ d_table st' = d_table st /\ d_blocks st' = d_blocks st
   end.
 Proof.
   intros HW Hpa. revert st HW. induction cands as [|[idx id] rest IH]; intros st HW; cbn [alloc_other].
-  - split; [auto|]. split; [apply ext_refl|reflexivity].
+  - split; [auto|]. split; [apply ext_refl|]. split; reflexivity.
   - destruct (find_id id (d_blocks st)) as [t|] eqn:Hf.
-    2:{ split; [auto|]. split; [apply ext_refl|reflexivity]. }
+    2:{ split; [auto|]. split; [apply ext_refl|]. split; reflexivity. }
     destruct (wb_tinv _ (wf_b _ HW) _ _ Hf) as (HT & Hg & HI2).
     destruct (may_have_free t kind size).
     + pose proof (alloc_in_spec t size align kind 0 max_int (tmp_tag st) HT Hg HI2 Hpa) as Hs.
       destruct (alloc_in t size align kind 0 max_int (tmp_tag st)) as [t' off|t'|].
-      * destruct Hs as (HT' & Hg' & HI2' & _ & Hs1 & Hle). split; [left; reflexivity|]. split; [exact Hs1|].
-        exists st, t, t'. split; [auto|]. split; [apply ext_refl|]. auto 10.
+      * destruct Hs as (HT' & Hg' & HI2' & _ & Hs1 & Hsz' & Hle). split; [left; reflexivity|]. split; [exact Hs1|].
+        exists st, t, t'. split; [auto|]. split; [apply ext_refl|]. auto 12.
       * subst t'.
-        assert (HW2 : WF (set_block st id t)) by (eapply wf_set_same; eauto).
-        specialize (IH _ HW2). rewrite tmp_tag_set_block in IH.
-        destruct (alloc_other (set_block st id t) rest size align kind) as [st' i2 id2 off2|st'|st'].
-        -- destruct IH as (Hin & Hs1 & st1 & t1 & t2 & HW1 & He1 & Ht1 & R). split; [right; exact Hin|]. split; [exact Hs1|].
-           exists st1, t1, t2. split; [exact HW1|]. split; [eapply ext_trans; [apply ext_set_block|exact He1]|].
-           split; [rewrite Ht1; reflexivity|exact R].
-        -- destruct IH as (HW1 & He1 & Ht1). split; [exact HW1|]. split; [eapply ext_trans; [apply ext_set_block|exact He1]|].
-           rewrite Ht1; reflexivity.
-        -- destruct IH as (HW1 & He1 & Ht1). split; [exact HW1|]. split; [eapply ext_trans; [apply ext_set_block|exact He1]|].
-           rewrite Ht1; reflexivity.
+        assert (Hsame : set_block st id t = st).
+        { unfold set_block, set_blocks. rewrite (set_id_same _ _ _ Hf). destruct st; reflexivity. }
+        rewrite Hsame. specialize (IH _ HW).
+        destruct (alloc_other st rest size align kind) as [st' i2 id2 off2|st'|st']; auto.
+        destruct IH as (Hin & R). split; [right; exact Hin|exact R].
       * destruct Hs.
     + specialize (IH _ HW).
       destruct (alloc_other st rest size align kind) as [st' i2 id2 off2|st'|st']; auto.
@@ -775,6 +804,32 @@ Definition pass_tracks (p0 p : pass) (new : list move) : Prop :=
   ps_bytes_freed (p_stats p) = ps_bytes_freed (p_stats p0) /\
   ps_allocs_freed (p_stats p) = ps_allocs_freed (p_stats p0).
 
+(* the metadata user data / the allocation object of the temporary of a move *)
+Definition tmp_tag_of (sentinel : bool) (slot : nat) : option Z :=
+  if sentinel then Some ctx_tag else Some (Z.of_nat slot).
+
+Definition tmp_entry (st0 : dstate) (m : move) : option uent :=
+  match entry st0 (m_src m) with
+  | Some es => Some (mkU (m_dstblk m) (m_dstoff m) (m_size m) (u_align es) (u_kind es) (-1) true)
+  | None => None
+  end.
+
+(* b is the region record of the temporary of move m *)
+Definition tmp_region (st0 : dstate) (m : move) (b : blk) : Prop :=
+  exists es, entry st0 (m_src m) = Some es /\
+    b = new_blk (m_dstoff m) (m_size m) (tmp_tag_of (d_sentinel st0) (m_tmp m)) (u_kind es) (m_size m) (u_align es).
+
+(* what a collecting pass has done so far to the table and to the live region records of every
+   block: the old records are literally kept, the new ones are the temporaries of the new moves *)
+Record CReg (st0 st : dstate) (new : list move) : Prop := mkCReg {
+  cr_table : d_table st = d_table st0 ++ map (tmp_entry st0) new;
+  cr_tmps : map m_tmp new = seq (length (d_table st0)) (length new);
+  cr_live : forall id t t', find_id id (d_blocks st0) = Some t -> find_id id (d_blocks st) = Some t' ->
+            (forall b, In b (live t) -> In b (live t')) /\
+            (forall b, In b (live t') -> In b (live t) \/
+                                         exists m, In m new /\ m_dstblk m = id /\ tmp_region st0 m b)
+}.
+
 Record CInv (st0 : dstate) (ms0 : list move) (p0 : pass) (ix : list (Z * Z)) (cs : cstate) (new : list move) : Prop := mkCInv {
   ci_wf : WF (cs_st cs);
   ci_ext : ext st0 (cs_st cs);
@@ -785,7 +840,8 @@ Record CInv (st0 : dstate) (ms0 : list move) (p0 : pass) (ix : list (Z * Z)) (cs
   ci_newtemps : forall s e, (length (d_table st0) <= s)%nat -> entry (cs_st cs) s = Some e -> u_temp e = true;
   ci_pass : pass_tracks p0 (cs_pass cs) new;
   ci_within : pass_within (cs_pass cs);
-  ci_len : length (d_table (cs_st cs)) = (length (d_table st0) + length new)%nat
+  ci_len : length (d_table (cs_st cs)) = (length (d_table st0) + length new)%nat;
+  ci_reg : CReg st0 (cs_st cs) new
 }.
 
 Lemma move_ok_ext st0 st st' ix m : ext st st' -> move_ok st0 st ix m -> move_ok st0 st' ix m.
@@ -797,14 +853,16 @@ Qed.
 (* the block list changed without touching the table *)
 Lemma cinv_set_st st0 ms0 p0 ix cs new st' :
   CInv st0 ms0 p0 ix cs new -> WF st' -> ext (cs_st cs) st' -> d_table st' = d_table (cs_st cs) ->
+  d_blocks st' = d_blocks (cs_st cs) ->
   CInv st0 ms0 p0 ix (cs_set_st cs st') new.
 Proof.
-  intros [A B C D (E1 & E2) F G H I J] HW He Ht. constructor; cbn [cs_set_st cs_st cs_moves cs_pass]; auto.
+  intros [A B C D (E1 & E2) F G H I J [K1 K2 K3]] HW He Ht Hbl. constructor; cbn [cs_set_st cs_st cs_moves cs_pass]; auto.
   - eapply ext_trans; eauto.
   - eapply Forall_impl; [|exact D]. intros m. apply move_ok_ext; auto.
   - split; [exact E1|]. rewrite Ht. exact E2.
   - intros s e Hs Hen. apply (G s e Hs). unfold entry in *. rewrite <- Ht. exact Hen.
   - rewrite Ht. exact J.
+  - constructor; [rewrite Ht; exact K1|exact K2|rewrite Hbl; exact K3].
 Qed.
 
 Lemma cinv_set_pass st0 ms0 p0 ix cs new p1 :
@@ -813,7 +871,7 @@ Lemma cinv_set_pass st0 ms0 p0 ix cs new p1 :
   p_max_allocs p1 = p_max_allocs (cs_pass cs) ->
   CInv st0 ms0 p0 ix (cs_set_pass cs p1) new.
 Proof.
-  intros [A B C D E F G H I J] H1 H2 H3. constructor; cbn [cs_set_pass cs_st cs_moves cs_pass]; auto.
+  intros [A B C D E F G H I J K] H1 H2 H3. constructor; cbn [cs_set_pass cs_st cs_moves cs_pass]; auto.
   - unfold pass_tracks in *. rewrite H1, H2, H3. exact H.
   - unfold pass_within in *. rewrite H1, H2, H3. exact I.
 Qed.
@@ -847,8 +905,8 @@ Lemma commit_move_spec st0 ms0 p0 ix cs new st1 did t t2 slot e bi dstidx off :
   CInv st0 ms0 p0 ix cs new ->
   entry (cs_st cs) slot = Some e -> u_temp e = false -> In (bi, u_blk e) ix ->
   Forall (key_above bi (u_off e)) new ->
-  WF st1 -> ext (cs_st cs) st1 -> d_table st1 = d_table (cs_st cs) ->
-  find_id did (d_blocks st1) = Some t -> TInv t2 -> g_g (t_gran t2) = 1 -> Inv2 t2 ->
+  WF st1 -> ext (cs_st cs) st1 -> d_table st1 = d_table (cs_st cs) -> d_blocks st1 = d_blocks (cs_st cs) ->
+  find_id did (d_blocks st1) = Some t -> TInv t2 -> g_g (t_gran t2) = 1 -> Inv2 t2 -> t_size t2 = t_size t ->
   (exists l1 l2, live t = l1 ++ l2 /\
      live t2 = l1 ++ new_blk off (u_size e) (tmp_tag st1) (u_kind e) (u_size e) (u_align e) :: l2) ->
   In (dstidx, did) ix ->
@@ -856,7 +914,7 @@ Lemma commit_move_spec st0 ms0 p0 ix cs new st1 did t t2 slot e bi dstidx off :
   pass_running (cs_pass cs) -> (ps_bytes_moved (p_stats (cs_pass cs)) + u_size e <= p_max_bytes (cs_pass cs) /\ ps_allocs_moved (p_stats (cs_pass cs)) < p_max_allocs (cs_pass cs)) ->
   step_post st0 ms0 p0 ix bi (u_off e) new (commit_move cs (set_block st1 did t2) slot e bi dstidx did off).
 Proof.
-  intros [A B C D (E1 & E2) F G H I J] Hent Htemp Hsrcix Hkeys HW1 Hext1 Htab1 Hfind HT2 Hg2 HI22 Hlive Hdstix Hfwd Hrun Hfit.
+  intros [A B C D (E1 & E2) F G H I J [K1 K2 K3]] Hent Htemp Hsrcix Hkeys HW1 Hext1 Htab1 Hbl1 Hfind HT2 Hg2 HI22 Hsz22 Hlive Hdstix Hfwd Hrun Hfit.
   destruct (wf_own _ A _ _ Hent) as (_ & Hpa & Hs1).
   unfold commit_move.
   destruct (increment_counters (cs_pass cs) (u_size e)) as [p' r] eqn:Hinc.
@@ -871,11 +929,11 @@ Proof.
   { destruct (Nat.lt_ge_cases slot (length (d_table st0))) as [Hlt|Hge]; [exact Hlt|].
     specialize (G _ _ Hge Hent). congruence. }
   assert (Hent0 : entry st0 slot = Some e).
-  { destruct B as (_ & _ & _ & B4). rewrite <- (B4 _ Hslot0). exact Hent. }
+  { destruct B as (_ & _ & _ & B4 & _). rewrite <- (B4 _ Hslot0). exact Hent. }
   assert (HW2 : WF st2).
   { rewrite Hst2. eapply wf_alloc_entry; eauto; cbn [etmp u_blk u_off u_size u_align u_temp]; auto.
     apply tmp_tag_ok. reflexivity. }
-  assert (Hext12 : ext st1 st2) by (rewrite Hst2; apply ext_add; apply set_id_ids).
+  assert (Hext12 : ext st1 st2) by (rewrite Hst2; apply ext_add; [apply set_id_ids|eapply same_sizes_set; eauto]).
   assert (Hextc2 : ext (cs_st cs) st2) by (eapply ext_trans; eauto).
   exists [mv]. cbn [fst snd].
   split; [|split; [|split]].
@@ -915,6 +973,35 @@ Proof.
       repeat split; auto; lia.
     + exact Hw'.
     + rewrite Hst2. cbn [d_table]. rewrite !app_length, Hlen1, J. cbn [length]. lia.
+    + assert (Hmt : m_tmp mv = (length (d_table st0) + length new)%nat).
+      { cbn [mv m_tmp set_block set_blocks d_table]. rewrite Hlen1. exact J. }
+      assert (Hte : tmp_entry st0 mv = Some etmp).
+      { unfold tmp_entry. cbn [mv m_src m_dstblk m_dstoff m_size]. rewrite Hent0. reflexivity. }
+      constructor.
+      * rewrite Hst2. cbn [d_table]. rewrite Htab1, K1, map_app, <- app_assoc. cbn [map]. rewrite Hte. reflexivity.
+      * rewrite map_app, app_length, seq_app, K2. cbn [map length seq]. rewrite Hmt. reflexivity.
+      * intros id0 t0 t0' H1 H2. rewrite Hst2 in H2. cbn [d_blocks] in H2. rewrite Hbl1 in *.
+        rewrite (find_set_id _ _ _ _ _ Hfind) in H2.
+        destruct Hlive as (l1 & l2 & Hl & Hl2).
+        destruct (id0 =? did) eqn:Eid.
+        -- apply Z.eqb_eq in Eid. subst id0. injection H2 as <-.
+           destruct (K3 _ _ _ H1 Hfind) as (K3a & K3b). split.
+           ++ intros b Hb. apply K3a in Hb. rewrite Hl in Hb. rewrite Hl2.
+              apply in_app_or in Hb. apply in_or_app. destruct Hb; [left|right; right]; auto.
+           ++ intros b Hb. rewrite Hl2 in Hb. apply in_app_or in Hb.
+              assert (Hold : In b (live t) -> In b (live t0) \/ exists m, In m (new ++ [mv]) /\ m_dstblk m = did /\ tmp_region st0 m b).
+              { intros Hb'. destruct (K3b _ Hb') as [Hb0|(m & Hm & R)]; [left; exact Hb0|right].
+                exists m. split; [apply in_or_app; left; exact Hm|exact R]. }
+              destruct Hb as [Hb|[Hb|Hb]].
+              ** apply Hold. rewrite Hl. apply in_or_app; auto.
+              ** right. exists mv. split; [apply in_or_app; right; left; reflexivity|]. split; [reflexivity|].
+                 exists e. split; [exact Hent0|]. subst b. cbn [mv m_dstoff m_size m_tmp set_block set_blocks d_table].
+                 unfold tmp_tag, tmp_tag_of. destruct Hext1 as (_ & Hsn1 & _). destruct B as (_ & Hsn0 & _).
+                 rewrite Hsn1, Hsn0. reflexivity.
+              ** apply Hold. rewrite Hl. apply in_or_app; auto.
+        -- destruct (K3 _ _ _ H1 H2) as (K3a & K3b). split; [exact K3a|].
+           intros b Hb. destruct (K3b _ Hb) as [Hb0|(m & Hm & R)]; [left; exact Hb0|right].
+           exists m. split; [apply in_or_app; left; exact Hm|exact R].
   - apply Forall_app. split.
     + eapply Forall_impl; [|exact Hkeys]. intros m [K|K]; [left; exact K|right; lia].
     + constructor; [|constructor]. right. cbn. lia.
@@ -950,12 +1037,13 @@ Proof.
   unfold try_lower.
   pose proof (alloc_lower_spec t (u_size e) (u_align e) (u_kind e) h (tmp_tag (cs_st cs)) HT Hg HI2 Hpa Hs1) as Hs.
   destruct (alloc_lower t (u_size e) (u_align e) (u_kind e) h (tmp_tag (cs_st cs))) as [t' off|t'|].
-  - destruct Hs as (HT' & Hg' & HI2' & Hlt & _ & Hle). subst h id.
+  - destruct Hs as (HT' & Hg' & HI2' & Hlt & _ & Hsz' & Hle). subst h id.
     eapply commit_move_spec; eauto. apply ext_refl.
   - subst t'. apply step_post_nil; auto; try discriminate.
     apply cinv_set_st; auto.
     + eapply wf_set_same; eauto.
-    + apply ext_set_block.
+    + eapply ext_set_block; eauto.
+    + cbn [set_block set_blocks d_blocks]. apply set_id_same. exact Hfind.
   - destruct Hs.
 Qed.
 
@@ -990,21 +1078,21 @@ Proof.
      | AONone st' => cs1 st'
      | AOPanic st' => (cs_set_st cs st', WPanic PMeta)
      end) = r ->
-    (forall st', WF st' -> ext (cs_st cs) st' -> d_table st' = d_table (cs_st cs) ->
+    (forall st', WF st' -> ext (cs_st cs) st' -> d_table st' = d_table (cs_st cs) -> d_blocks st' = d_blocks (cs_st cs) ->
                  step_post st0 ms0 p0 ix bi h new (cs1 st')) ->
     step_post st0 ms0 p0 ix bi h new r).
   { intros cs1 r <- Hnone.
     pose proof (alloc_other_spec (cs_st cs) (firstn (Z.to_nat bi) ix) (u_size e) (u_align e) (u_kind e) HW Hpa) as Hs.
     destruct (alloc_other (cs_st cs) (firstn (Z.to_nat bi) ix) (u_size e) (u_align e) (u_kind e)) as [st' idx did off|st'|st'].
-    - destruct Hs as (Hin & _ & st1 & t & t2 & HW1 & He1 & Ht1 & Hf1 & -> & HT2 & Hg2 & HI22 & Hle).
+    - destruct Hs as (Hin & _ & st1 & t & t2 & HW1 & He1 & Ht1 & Hf1 & -> & HT2 & Hg2 & HI22 & Hsz22 & Hle & Hbl1).
       apply indexed_from_firstn in Hin. destruct Hin as (Hidx & Hinix). rewrite Z2Nat.id in Hidx by lia.
       subst h id. eapply commit_move_spec; eauto.
       + assert (Htt : tmp_tag st1 = tmp_tag (cs_st cs)).
         { unfold tmp_tag. destruct He1 as (_ & -> & _). rewrite Ht1. reflexivity. }
         rewrite Htt. exact Hle.
       + left. lia.
-    - destruct Hs as (HW1 & He1 & Ht1). apply Hnone; auto.
-    - destruct Hs as (HW1 & He1 & Ht1). apply step_post_nil; auto; try discriminate.
+    - destruct Hs as (HW1 & He1 & Ht1 & Hbl1). apply Hnone; auto.
+    - destruct Hs as (HW1 & He1 & Ht1 & Hbl1). apply step_post_nil; auto; try discriminate.
       apply cinv_set_st; auto. }
   unfold handle_alloc. fold ix.
   destruct (algo =? 0).
@@ -1013,11 +1101,11 @@ Proof.
   { destruct (bi =? 0).
     - apply step_post_nil; auto; discriminate.
     - eapply (Hother (fun st' => (cs_set_st cs st', WCont))); [reflexivity|].
-      intros st' HW' He' Ht'. apply step_post_nil; auto; try discriminate.
+      intros st' HW' He' Ht' Hb'. apply step_post_nil; auto; try discriminate.
       apply cinv_set_st; auto. }
   destruct (0 <? bi).
   - eapply (Hother (fun st' => lower_if (cs_set_st cs st') bi id h slot e)); [reflexivity|].
-    intros st' HW' He' Ht'. eapply lower_if_spec; eauto.
+    intros st' HW' He' Ht' Hb'. eapply lower_if_spec; eauto.
     + apply cinv_set_st; auto.
     + cbn [cs_set_st cs_st]. eapply ext_entry; eauto.
   - eapply lower_if_spec; eauto.
@@ -1144,6 +1232,8 @@ Proof.
   - unfold pass_tracks, zlen. cbn. repeat split; lia.
   - apply running_within. exact Hrun.
   - cbn [length]. lia.
+  - constructor; cbn [map length seq]; [rewrite app_nil_r; reflexivity|reflexivity|].
+    intros id t t' H1 H2. rewrite H1 in H2. injection H2 as <-. split; auto.
 Qed.
 
 Lemma collect_moves_inv st c p :
@@ -1174,6 +1264,61 @@ Proof.
   - destruct (c_algo c =? 1); [apply Hwalk|]. destruct (c_algo c =? 2); [apply Hwalk|].
     exists []. split; [exact HC0|discriminate].
   - destruct ((zlen (d_blocks st) =? 1) && negb (c_algo c =? 1)); [apply Hwalk|exact Hnil].
+Qed.
+
+(* a collecting pass keeps every block's identity, position, size and granularity: it only
+   allocates temporaries inside the blocks (for the whole-allocator model: the device memory
+   behind a block still matches the block) *)
+Lemma collect_moves_sizes st c p :
+  WF st -> pass_running p ->
+  map fst (d_blocks (cs_st (fst (collect_moves st c p)))) = map fst (d_blocks st) /\
+  forall id t t', find_id id (d_blocks st) = Some t ->
+                  find_id id (d_blocks (cs_st (fst (collect_moves st c p)))) = Some t' ->
+                  t_size t' = t_size t /\ g_g (t_gran t') = g_g (t_gran t).
+Proof.
+  intros HW Hrun. destruct (collect_moves_inv st c p HW Hrun) as (new & HC & _).
+  pose proof (ci_ext _ _ _ _ _ _ HC) as He. pose proof (ci_wf _ _ _ _ _ _ HC) as HW'.
+  split; [apply (proj1 He)|]. intros id t t' H1 H2. split; [eapply ext_sizes; eauto|].
+  destruct (wb_tinv _ (wf_b _ HW) _ _ H1) as (_ & G1 & _).
+  destruct (wb_tinv _ (wf_b _ HW') _ _ H2) as (_ & G2 & _). congruence.
+Qed.
+
+(* what a collecting pass does to the table and to the live region records (CReg): new = the moves
+   this pass appended to c_moves c *)
+Lemma collect_moves_regions st c p :
+  WF st -> pass_running p ->
+  exists new, cs_moves (fst (collect_moves st c p)) = c_moves c ++ new /\
+              new = skipn (length (c_moves c)) (cs_moves (fst (collect_moves st c p))) /\
+              CReg st (cs_st (fst (collect_moves st c p))) new /\
+              Forall (move_ok st (cs_st (fst (collect_moves st c p))) (indexed st)) new.
+Proof.
+  intros HW Hrun. destruct (collect_moves_inv st c p HW Hrun) as (new & HC & _). exists new.
+  pose proof (ci_moves _ _ _ _ _ _ HC) as Hm. split; [exact Hm|]. split.
+  - rewrite Hm, skipn_app, skipn_all, Nat.sub_diag. reflexivity.
+  - split; [apply (ci_reg _ _ _ _ _ _ HC)|apply (ci_ok _ _ _ _ _ _ HC)].
+Qed.
+
+(* the same in the form the whole-allocator model uses (temporaries tagged with their allocation
+   object: d_sentinel = false) *)
+Lemma collect_moves_live st c p :
+  WF st -> pass_running p -> d_sentinel st = false ->
+  let cs := fst (collect_moves st c p) in
+  let new := skipn (length (c_moves c)) (cs_moves cs) in
+  d_table (cs_st cs) = d_table st ++ map (tmp_entry st) new /\
+  map m_tmp new = seq (length (d_table st)) (length new) /\
+  forall id t t', find_id id (d_blocks st) = Some t -> find_id id (d_blocks (cs_st cs)) = Some t' ->
+    (forall b, In b (live t) -> In b (live t')) /\
+    (forall b, In b (live t') -> In b (live t) \/
+       exists m es, In m new /\ m_dstblk m = id /\ entry st (m_src m) = Some es /\ u_size es = m_size m /\
+                    b = new_blk (m_dstoff m) (m_size m) (Some (Z.of_nat (m_tmp m))) (u_kind es) (m_size m) (u_align es)).
+Proof.
+  intros HW Hrun Hsn cs new0. destruct (collect_moves_regions st c p HW Hrun) as (new & _ & Hnew & [K1 K2 K3] & Hok).
+  fold cs in Hnew, K1, K3, Hok. fold new0 in Hnew. subst new0. rewrite <- Hnew.
+  split; [exact K1|]. split; [exact K2|]. intros id t t' H1 H2. destruct (K3 _ _ _ H1 H2) as (A & B).
+  split; [exact A|]. intros b Hb. destruct (B b Hb) as [Hb0|(m & Hm & Hd & es & He & Hbe)]; [left; exact Hb0|right].
+  exists m, es. split; [exact Hm|]. split; [exact Hd|]. split; [exact He|].
+  rewrite Forall_forall in Hok. destruct (Hok m Hm) as [_ _ _ (es' & E1 & _ & _ & _ & E5) _ _].
+  rewrite He in E1. injection E1 as <-. split; [exact E5|]. rewrite Hbe. unfold tmp_tag_of. rewrite Hsn. reflexivity.
 Qed.
 
 (* the allocation objects a pending move refers to: the source is a user allocation at the
@@ -3627,6 +3772,8 @@ Print Assumptions complete_pass_ok.
 Print Assumptions run_terminates_copy_only.
 Print Assumptions run_terminates.
 Print Assumptions collect_never_panics.
+Print Assumptions collect_moves_sizes.
+Print Assumptions collect_moves_live.
 Print Assumptions run_completes.
 Print Assumptions wstep_safe.
 Print Assumptions run_stats_accumulate.
